@@ -578,6 +578,12 @@ func (rw *rewriter) goStmt(g *ast.GoStmt) ast.Stmt {
 	stmts = append(stmts, define(f, call.Fun))
 	var args []ast.Expr
 	for _, a := range call.Args {
+		if tv, ok := rw.info.Types[a]; ok && (tv.Value != nil || tv.IsNil()) {
+			// constant (or nil) operand: keep it in place (hoisting an untyped constant into `_a := 0`
+			// would give it its default type and break e.g. `go f(x, 0)` with a uint64 parameter)
+			args = append(args, a)
+			continue
+		}
 		t := rw.tmp("a")
 		stmts = append(stmts, define(t, a))
 		args = append(args, t)
